@@ -113,15 +113,15 @@ impl Require {
     /// This will return error for any normal TOML serialization error as well if it's not
     /// possible to serialize as a TOML Table.
     pub fn metadata<T: Serialize>(&mut self, metadata: T) -> Result<(), toml::ser::Error> {
-        if let toml::Value::Table(table) = toml::Value::try_from(metadata)? {
-            self.metadata = table;
+        // `toml::Value::try_from` cannot be used here: it does not support datetime values and
+        // silently turns them into tables with a private marker key. Serializing to a TOML
+        // document (which only succeeds for tables) and parsing that document does not have
+        // this problem.
+        self.metadata = toml::to_string(&metadata)?
+            .parse::<Table>()
+            .map_err(toml::ser::Error::custom)?;
 
-            Ok(())
-        } else {
-            Err(toml::ser::Error::custom(String::from(
-                "Couldn't be serialized as a TOML Table.",
-            )))
-        }
+        Ok(())
     }
 }
 
